@@ -1329,14 +1329,18 @@ func (c *c19Case) freshEvidence() *c19Ev {
 	return c.mkEvidence(h, c19Kinds[c.r.Intn(len(c19Kinds))])
 }
 
-// replayOf: the committed double-signing again, with another validator index in one vote
+// replayOf: the committed double-signing again, with another validator index in one vote or the votes swapped
 func (c *c19Case) replayOf(e *c19Ev) *c19Ev {
 	cp := *e.ev
 	cp.VoteA, cp.VoteB = c19CopyVote(e.ev.VoteA), c19CopyVote(e.ev.VoteB)
-	if c.r.Chance(1, 2) {
+	switch c.r.Intn(3) {
+	case 0:
 		cp.VoteA.ValidatorIndex += uint32(1 + c.r.Intn(5))
-	} else {
+	case 1:
 		cp.VoteB.ValidatorIndex += uint32(1 + c.r.Intn(5))
+	default: // the same two votes in the other order
+		cp.VoteA, cp.VoteB = cp.VoteB, cp.VoteA
+		return c.register(&cp, "replay-swapped")
 	}
 	return c.register(&cp, "replay-index")
 }
@@ -1657,7 +1661,15 @@ func (c *c19Case) proposalEvidence(nd *c19Node) []*c19Ev {
 	maxNumEvidence := maxBytes
 	evs := c.opPending(nd, maxBytes)
 	fam := c.family(nd, "evidence-pending")
-	if len(fam) > 0 && len(evs) == 0 {
+	decodable := true // a stored value that fails ValidateBasic (only the harness's raw CONS puts one there) makes the listing fail
+	for _, k := range fam {
+		for _, e := range c.evs {
+			if c19Key2(e) == k && e.ev.ValidateBasic() != nil {
+				decodable = false
+			}
+		}
+	}
+	if len(fam) > 0 && len(evs) == 0 && decodable {
 		first := ""
 		for _, e := range c.evs {
 			if c19Key2(e) == fam[0] {
